@@ -7,6 +7,7 @@ ctx = vlib.Ctx('C10')
 if ctx.replay:
     _core_check.replay(ctx); sys.exit(0)
 vlib.proof_phase(ctx)
+_core_check.source_def(ctx)      # resolve_static_type_ids as translated from compiler.hpp (Properties_def_source)
 res = coresuite.rtti_suite(ctx.tier, ctx.seed)
 cov = coresuite.summarize_groups(ctx, res, 'RTTI flavours x updates of one registry')
 vlib.finish(ctx, cov, assumptions=['harness H1 keeps one process alive across all cases: the policies\' persistent state (dispatch_data, v-table pointer vectors, hash parameters, static v-table pointers of removed classes) leaks from case to case on purpose'])
